@@ -42,6 +42,7 @@ def _gen_obj(rng, kind):
     o['unc_unit'] = rng.choice(['mJy', 'Jy']) if (o['unit'] in ('mJy', 'Jy') and kind != 'conv' and rng.random() < 0.5) else o['unit']
     # the spectral axis may be handed over as wavelengths in any length unit or as frequencies in any frequency unit
     o['axis'] = rng.choice([None, None, None, 'Angstrom', 'm', 'Hz', 'GHz', 'THz'])
+    o['decade'] = rng.choice([0, 0, 0, -12, -9, 30]) if kind != 'conv' else 0
     # the apertures of the object the user builds need not be in increasing order
     o['ap_order'] = rng.choice(['asc', 'asc', 'desc', 'shuffled'])
     if rng.random() < 0.7:
@@ -127,7 +128,8 @@ class _Ref(object):
         self.aps = np.sort(10 ** g.uniform(1, 5, na)) if o['has_ap'] else None
         if not o['has_ap']:
             na = 1
-        self.val = 10 ** g.uniform(-3, 3, (nm, na, nw))
+        # (the magnitude depends on the unit: fluxes of 1e-12 erg/cm^2/s and luminosities of 1e33 erg/s are ordinary numbers)
+        self.val = 10 ** g.uniform(-3, 3, (nm, na, nw)) * 10.0 ** o.get('decade', 0)
         self.unc = self.val * g.uniform(0.01, 0.1, self.val.shape) if o['has_unc'] else None
         self.names = ['%s%s_%02d' % ('abcdefghijklmnopqrstuvwxyz'[int(g.integers(0, 26))], 'abcdefghijklmnopqrstuvwxyz'[int(g.integers(0, 26))], i) for i in range(nm)]
         if o.get('names'):
